@@ -45,7 +45,7 @@ def main():
                     tests = "tests:" + ("pass" if r.returncode == 0 else "FAIL") + " "
                 for prop in m["props"]:
                     t0 = time.time()
-                    env = dict(os.environ, OL_REPO=scratch)
+                    env = dict(os.environ, OL_REPO=scratch, OLVERIF_OUT=os.path.join(scratch, ".verif-out"))
                     r = subprocess.run([os.path.join(VERIF, "check"), prop, tier], capture_output=True, text=True, env=env, cwd=VERIF)
                     verdict = {0: "MISSED", 1: "caught", 2: "HARNESS-ERROR"}.get(r.returncode, "rc=%d" % r.returncode)
                     rows.append((m["name"], "%s%s %s (%.0fs)" % (tests, prop, verdict, time.time() - t0)))
